@@ -25,10 +25,15 @@ Fixpoint unstack (t : list odesc) (arg : string) (chars : string) : list string 
       match ofind t short with
       | Some d =>
           if is_withparam d then
-            let split_char := if contains_char "=" arg then "="%char else c in
-            match after_first split_char arg with
-            | Some EmptyString | None => [simple_repr d]
-            | Some param => [simple_repr d; param]
+            (* the value is what follows the option's character, less ONE `=` directly after it
+               (so `-oV`, `-o=V` and a V that itself contains `=` all work) *)
+            match after_first c arg with
+            | None => [simple_repr d]
+            | Some rest =>
+                match (match rest with String "=" r' => r' | _ => rest end) with
+                | EmptyString => [simple_repr d]
+                | param => [simple_repr d; param]
+                end
             end
           else simple_repr d :: unstack t arg r
       | None => short :: unstack t arg r
@@ -75,6 +80,12 @@ Example norm_example :
                       {| od_kind := OSimple; od_short := Some "-q"; od_long := None |} ]
                     ["-qfoV"; "a"; "--out"; "W"; "-o=X"; "b"]
   = Some ["-q"; "--force"; "--out=V"; "a"; "--out=W"; "--out=X"; "b"].
+Proof. reflexivity. Qed.
+
+(* a value that contains `=` survives the attached short form *)
+Example norm_attached_value_with_eq :
+  normalize_options [ {| od_kind := OWithParam None; od_short := Some "-o"; od_long := Some "--out" |} ] ["-oa=b"; "x"]
+  = Some ["--out=a=b"; "x"].
 Proof. reflexivity. Qed.
 
 (* K12: a valued option in last position takes the FIRST word as its value *)
